@@ -1,6 +1,11 @@
 // gotrans: source-to-Gallina translator for a small subset of Go (phase 1: loop-free functions;
 // phase 2, ext.go: for loops and self-recursion on explicit fuel, *int parameters, maps, struct
-// variables, package-level tables and calls of methods of abstract objects).
+// variables, package-level tables and calls of methods of abstract objects; phase 3, ext3*.go: the
+// write / encode side; phase 4, ext4.go: bufiox — pointer receivers to structs whose []byte fields
+// have spare capacity (GoSem.gcslice), [][]byte and array fields, interface-typed fields whose
+// methods store into a window, nested structs, the allocator as an abstract object, under a
+// syntactic sharing discipline that keeps the value semantics sound; its assumptions are listed in
+// the header of ext4.go and written into the header of Funcs.v).
 //
 // Loads /repo with full type information and translates a WHITELIST of small pure functions
 // into Gallina definitions (coq/Gen/Funcs.v, names g_<pkg>_<Func>), written in terms of
@@ -41,6 +46,7 @@ var pkgShort = map[string]string{
 	modPath + "protocol/ttheader":    "ttheader",
 	modPath + "container/strmap":     "strmap",
 	modPath + "protocol/thrift/base": "base",
+	modPath + "bufiox":               "bufiox",
 }
 
 type fnSpec struct{ pkg, recv, name string }
@@ -118,6 +124,16 @@ var whitelist = []fnSpec{
 	{"thrift", "", "FastMarshal"}, {"thrift", "", "FastUnmarshal"}, {"thrift", "", "MarshalFastMsg"},
 	// container/strmap: read-only views of the generic StrMap[V] (ext3c.go)
 	{"strmap", "StrMap", "Len"}, {"strmap", "StrMap", "Item"}, {"strmap", "StrMap", "Get"},
+	// phase 4 (ext4.go): bufiox/defaultbuf.go — pointer receivers to structs whose []byte fields have
+	// spare capacity, a [][]byte field, an interface-typed field (io.Reader / io.Writer, with Read
+	// storing into its argument), a nested struct with an array field, the allocator as an object
+	{"bufiox", "maxSizeStats", "update"}, {"bufiox", "maxSizeStats", "maxSize"},
+	{"bufiox", "DefaultReader", "reset"}, {"bufiox", "DefaultReader", "acquireSlow"}, {"bufiox", "DefaultReader", "acquire"},
+	{"bufiox", "DefaultReader", "Next"}, {"bufiox", "DefaultReader", "Peek"}, {"bufiox", "DefaultReader", "Skip"},
+	{"bufiox", "DefaultReader", "ReadLen"}, {"bufiox", "DefaultReader", "ReadBinary"}, {"bufiox", "DefaultReader", "Release"},
+	{"bufiox", "DefaultWriter", "reset"}, {"bufiox", "DefaultWriter", "acquireSlow"}, {"bufiox", "DefaultWriter", "acquire"},
+	{"bufiox", "DefaultWriter", "Malloc"}, {"bufiox", "DefaultWriter", "WriteBinary"}, {"bufiox", "DefaultWriter", "WrittenLen"},
+	{"bufiox", "DefaultWriter", "Flush"},
 }
 
 // Coq names that differ from g_<pkg>_<Func> (methods of several types with the same name)
@@ -142,6 +158,24 @@ var coqNameOf = map[fnSpec]string{
 	{"base", "BaseResp", "BLength"}:                       "g_base_BaseResp_BLength",
 	{"base", "BaseResp", "FastWriteNocopy"}:               "g_base_BaseResp_FastWriteNocopy",
 	{"base", "BaseResp", "FastWrite"}:                     "g_base_BaseResp_FastWrite",
+	{"bufiox", "maxSizeStats", "update"}:                  "g_bufiox_maxSizeStats_update",
+	{"bufiox", "maxSizeStats", "maxSize"}:                 "g_bufiox_maxSizeStats_maxSize",
+	{"bufiox", "DefaultReader", "reset"}:                  "g_bufiox_DefaultReader_reset",
+	{"bufiox", "DefaultReader", "acquireSlow"}:            "g_bufiox_DefaultReader_acquireSlow",
+	{"bufiox", "DefaultReader", "acquire"}:                "g_bufiox_DefaultReader_acquire",
+	{"bufiox", "DefaultReader", "Next"}:                   "g_bufiox_DefaultReader_Next",
+	{"bufiox", "DefaultReader", "Peek"}:                   "g_bufiox_DefaultReader_Peek",
+	{"bufiox", "DefaultReader", "Skip"}:                   "g_bufiox_DefaultReader_Skip",
+	{"bufiox", "DefaultReader", "ReadLen"}:                "g_bufiox_DefaultReader_ReadLen",
+	{"bufiox", "DefaultReader", "ReadBinary"}:             "g_bufiox_DefaultReader_ReadBinary",
+	{"bufiox", "DefaultReader", "Release"}:                "g_bufiox_DefaultReader_Release",
+	{"bufiox", "DefaultWriter", "reset"}:                  "g_bufiox_DefaultWriter_reset",
+	{"bufiox", "DefaultWriter", "acquireSlow"}:            "g_bufiox_DefaultWriter_acquireSlow",
+	{"bufiox", "DefaultWriter", "acquire"}:                "g_bufiox_DefaultWriter_acquire",
+	{"bufiox", "DefaultWriter", "Malloc"}:                 "g_bufiox_DefaultWriter_Malloc",
+	{"bufiox", "DefaultWriter", "WriteBinary"}:            "g_bufiox_DefaultWriter_WriteBinary",
+	{"bufiox", "DefaultWriter", "WrittenLen"}:             "g_bufiox_DefaultWriter_WrittenLen",
+	{"bufiox", "DefaultWriter", "Flush"}:                  "g_bufiox_DefaultWriter_Flush",
 }
 
 // library calls that are given a meaning (everything else fails)
@@ -214,6 +248,12 @@ type fnInfo struct {
 	dirtOwned  map[*types.Var]bool     // local buffers x := dirtmake.Bytes(n, n)
 	regionOf   map[*types.Var]*absRoot // local []byte variables that are windows into an abstract object's memory
 	oracles    []oracle                // the enumeration orders of its map range statements (and of its callees'): trailing parameters
+	// phase 4 (ext4.go)
+	cs         bool                      // the receiver is a pointer to a struct listed in csStructs: leaves of its fields are the binders
+	csVars     map[*types.Var]bool       // local variables / parameters of type []byte that are slices with capacity (gcslice)
+	fieldRoots map[*types.Var]*absRoot   // interface-typed leaves of the receiver: abstract objects whose state is a field
+	allocRoot  *absRoot                  // the allocator (mcache / dirtmake), an abstract object handed on as a trailing parameter
+	movedTo    map[*types.Var]*types.Var // an interface-typed parameter whose only use is to be stored into that leaf
 }
 
 type errCmp struct {
@@ -719,6 +759,9 @@ func (c *fctx) expr(e ast.Expr) (pre []string, term string) {
 			return nil, t
 		}
 	}
+	if p, t, ok := c.csExpr(e); ok {
+		return p, t // slices with capacity, array leaves (ext4.go)
+	}
 	switch x := e.(type) {
 	case *ast.ParenExpr:
 		return c.expr(x.X)
@@ -868,6 +911,9 @@ func (c *fctx) binary(x *ast.BinaryExpr) (pre []string, term string) {
 			}
 			return s
 		}
+		if p, t, ok := c.csNilTest(x); ok {
+			return p, neg(t)
+		}
 		if t, ok := c.nilTest(x); ok {
 			return nil, neg(t)
 		}
@@ -1015,6 +1061,9 @@ func (c *fctx) call(x *ast.CallExpr) (pre []string, terms []string) {
 			return p, []string{a}
 		}
 		c.failf(x, "conversion from %s to %s", from, to)
+	}
+	if p, ts, ok := c.csCall(x); ok {
+		return p, ts // len / cap / copy on slices with capacity, the allocator (ext4.go)
 	}
 	// builtins
 	if id, ok := ast.Unparen(x.Fun).(*ast.Ident); ok {
@@ -1398,7 +1447,7 @@ func (c *fctx) block(depth int, list []ast.Stmt, k func(depth int) string) strin
 				if isEmptyStruct(obj.Type()) {
 					continue // a value without state
 				}
-				val := c.zero(n, obj.Type())
+				val := c.zeroVar(n, obj)
 				if c.f.regionOf[obj] != nil {
 					val = "gregion_nil"
 					if len(vs.Values) != 0 {
@@ -1484,6 +1533,9 @@ func (c *fctx) assign(s *ast.AssignStmt) []string {
 		delete(c.info.Types, be)
 		name := c.lhsName(s.Lhs[0])
 		return append(pre, c.bindLine(s.Lhs[0], name, term))
+	}
+	if pre, ok := c.csAssign(s); ok {
+		return pre
 	}
 	if pre, ok := c.commaOk(s); ok {
 		return pre
@@ -1769,6 +1821,7 @@ func (t *tr) analyse(f *fnInfo, seen map[*fnInfo]bool) {
 					f.needsRFuel = f.needsRFuel || callee.needsRFuel
 					t.mapAbstract(f, callee, x)
 					t.mapNilable(f, callee, x)
+					t.mapCS(f, callee, x)
 					for _, e := range callee.externs {
 						f.addExtern(e)
 					}
@@ -1833,6 +1886,10 @@ func (t *tr) translate(f *fnInfo) {
 	if sig.Variadic() || sig.TypeParams() != nil {
 		c.failf(f.decl, "variadic or generic function")
 	}
+	if f.cs && f.recvStruct == nil {
+		c.failf(f.decl, "receiver struct: %s", f.fail)
+	}
+	c.checkSharing()
 	if why := t.checkPointerCallSites(f); why != "" {
 		c.failf(f.decl, "pointer parameter: %s", why)
 	}
@@ -1861,7 +1918,7 @@ func (t *tr) translate(f *fnInfo) {
 	if f.recvStruct != nil {
 		addBinder(c.isnilName(), "bool")
 		for _, fv := range f.recvFields {
-			addBinder(c.fieldName(f.recvStruct, fv), c.coqType(f.decl, fv.Type()))
+			addBinder(c.fieldName(f.recvStruct, fv), c.leafCoqType(f.decl, fv))
 		}
 	}
 	for i, p := range f.params {
@@ -1896,7 +1953,7 @@ func (t *tr) translate(f *fnInfo) {
 		rts = append(rts, f.absOf(f.recv).stName())
 	}
 	for _, fv := range f.recvFields {
-		rts = append(rts, c.coqType(f.decl, fv.Type()))
+		rts = append(rts, c.leafCoqType(f.decl, fv))
 	}
 	for i, p := range f.params {
 		if f.mutated[i] {
@@ -2224,7 +2281,8 @@ func header() string {
        an external function listed with that argument dropped (maphash.String(m.seed, s) is the
        parameter x_maphash_String : bytes -> res Z, "the hash function of this instance"); a type
        parameter V with an empty constraint is a value type: binders (T_V : Type) (z_V : T_V), the
-       type and its zero value.  Sound because nothing in the function can change the slices. *)
+       type and its zero value.  Sound because nothing in the function can change the slices.
+` + phase4Header() + `*)
 From GV Require Import Lib.Bytes Lib.Res Lib.GoSem.
 Open Scope Z_scope.
 `
